@@ -1375,7 +1375,9 @@ class Vector():
 		dtype = self._dtype
 		for x in appended:
 			dtype = dtype.promote_with(x)
-		return Vector(self._underlying + appended, dtype=dtype)
+		# list(...) so that the result owns fresh storage: t + () is t itself in CPython,
+		# and a result sharing its operand's tuple would refuse writes with AliasError
+		return Vector(list(self._underlying + appended), dtype=dtype)
 
 
 	def __rshift__(self, other):
@@ -1408,7 +1410,8 @@ class Vector():
 		"""
 		# Convert other to Vector and concatenate with self
 		if isinstance(other, Iterable) and not isinstance(other, (str, bytes, bytearray)):
-			return Vector(tuple(other) + self._underlying,
+			# list(...): () + t is t itself in CPython; the result must own fresh storage
+			return Vector(list(tuple(other) + self._underlying),
 				None,  # other doesn't have a default element
 				None,
 				False)
